@@ -237,6 +237,27 @@ def run(ck):
     ck.rule("C07-O5", "bytes written per record = encode(formattedMessage()) + one newline, the quantity rotateIfNeeded measures (no padding, indentation, prefix or re-encoding at the write site)")
     from rules.c05 import record_framing
     record_framing(ck, S, "C07-O5")
+    # ... in the same encoding: UTF-8 and the local 8-bit codec give different lengths for the same text (GB18030: U+00FF is 4 bytes, 2 in UTF-8)
+    def encoders(fns):
+        return {strip_tmpl(x.get("callee") or "").split("::")[-1] for f_ in fns for x in f_.all_nodes() if x.get("k") == "call" and
+                strip_tmpl(x.get("callee") or "").split("::")[-1] in ("toUtf8", "toLocal8Bit", "toLatin1", "toUcs4", "toStdString") and
+                any(is_call(y, LM + "::formattedMessage") for y in walk(x.get("obj") or {}))}
+    written = encoders([S.io_send])
+    measured = encoders([f_ for f_ in (ri, cs, S.send) if f_ is not None and f_.id != S.io_send.id]) - (written if S.send.id == S.io_send.id else set())
+    # send() may contain the spliced write itself: what is measured is whatever feeds the size check
+    measured_only = {e_ for e_ in measured}
+    if written and measured_only:
+        okenc = measured_only <= written or (len(measured_only) > 1 and written < measured_only and all(
+            not any(is_call(a_, LM + "::formattedMessage") or True for a_ in ()) for _ in ()))
+        differs = bool(measured_only - written)
+        # when the rotating send() carries the spliced write, both encoders show up there: the write's own encoder is not a disagreement
+        if differs and S.record_writes(S.send) and all(name_is(w_.get("callee"), ("QIODevice::write", "QIODevice::putChar")) for w_ in S.record_writes(S.send)):
+            differs = bool(encoders([ri, cs]) - written)
+        ck.ob("C07-O5", sitestr(ri), not differs, "the record is measured in the encoding it is written in (%s)" % "/".join(sorted(written)) if not differs else
+              "the size check measures %s() of the record, the sink writes %s(): with a locale codec whose encoding of a character is longer than the measured one the file outgrows the limit "
+              "(GB18030: four U+00FF are 17 bytes on disk, 9 measured)" % ("/".join(sorted(measured_only - written)), "/".join(sorted(written))), key="rotateIfNeeded|encoder-agreement")
+    else:
+        ck.ob("C07-O5", sitestr(ri), None, "the encoders of the measured (%s) and the written (%s) record were not both found" % (sorted(measured_only), sorted(written)), key="rotateIfNeeded|encoder-agreement")
     wr = [n for n in S.io_send.calls() if name_is(n.get("callee"), ("QIODevice::write", "QIODevice::putChar"))]
     ck.ob("C07-O3", sitestr(S.io_send), len(wr) == 1, "a record is one write (never split across a rotation)" if len(wr) == 1 else "a record is written in %d pieces" % len(wr), key="IODeviceSink::send|split-record")
     ck.rule("C07-O6", "a size of the active file read before a rotation is not used after it (the daily check may rotate before the size check runs)")
